@@ -79,7 +79,10 @@ Definition src_exhausted : M unit := fun s =>
 
 (* octets visible through the limit: what slice() can show *)
 Definition visible (s : src) : list N :=
-  match lim s with None => rem s | Some l => firstN l (rem s) end.
+  match lim s with
+  | None => rem s
+  | Some l => if len (rem s) <=? l then rem s else firstN l (rem s)
+  end.
 
 (* read-only views of the state used by the composite routines *)
 Definition get_lim : M (option N) := fun s => (Ok (lim s), s).
